@@ -46,6 +46,8 @@ def generate(rng, tier='quick', **kw):
         delta = -rng.choice([grid / 3, grid, grid * 10])
       elif k < 0.25:
         delta = 0.0
+      elif k < 0.28:
+        delta = rng.choice([3700.0, 5000.0, 9000.0])      # hours ahead (virtual time is free)
       elif k < 0.5 and deadlines:
         delta = rng.choice(deadlines) - t     # equal to a pending deadline
       else:
